@@ -115,7 +115,7 @@ def _narrow_iter(it: ast.AST) -> Optional[str]:
 
 
 def _early_exits_before(loop: ast.AST, target: ast.AST) -> List[ast.stmt]:
-    """break/continue/return statements of ``loop`` that can run, in some
+    """break/return statements of ``loop`` that can run, in some
     iteration, before ``target`` (a statement inside the loop body) is reached,
     other than (a) skipping an empty element and (b) exits that end a block
     which first did some work for the element (set the flag, handled the
@@ -136,7 +136,10 @@ def _early_exits_before(loop: ast.AST, target: ast.AST) -> List[ast.stmt]:
 
     def exits_in(s: ast.stmt, depth_loops: int = 0) -> List[ast.stmt]:
         res = []
-        if isinstance(s, (ast.Break, ast.Continue)) and depth_loops == 0:
+        # (a `continue` is a per-element condition, equivalent to nesting the
+        # rest of the body under its negation: it is part of the guard, not a
+        # narrowing of the range)
+        if isinstance(s, ast.Break) and depth_loops == 0:
             res.append(s)
         elif isinstance(s, ast.Return):
             res.append(s)
